@@ -132,6 +132,8 @@ func runC13(p *Prog, r *Result) {
 
 	r.Rule("R13e", "every $'…' escape Quote writes has a case in the expansion side's escape switch, and fixed-width hexadecimal escapes are exactly as wide as the most the reader takes", 10)
 	checkEscapeAgreement(p, r, "R13e")
+	r.Rule("R13g", "in Quote every test of a decoded rune against utf8.RuneError is conjoined with a test of its width against 1 (a valid U+FFFD decodes to the same rune)", 2)
+	checkRuneErrorWidth(p, r, "R13g")
 
 	fd := p.FuncDecl("syntax", "Quote")
 	if fd == nil || fd.Body == nil {
@@ -506,9 +508,52 @@ func runC13(p *Prog, r *Result) {
 	r.Check(okDQ, "R13c", "syntax.Quote#double-quote escapes ⊇ lexer specials", fd.Pos(), "lexer specials "+runeSetString(dqLexer)+" ⊆ escaped "+runeSetString(dqEsc),
 		fmt.Sprintf("inside double quotes the lexer acts on %q but Quote's fallback leaves it unescaped: the result expands to something else", string(miss)))
 	r.Check(dqEsc['\\'], "R13c", "syntax.Quote#double-quote escapes backslash", fd.Pos(), "backslash is escaped", "backslash is not escaped inside the double-quote fallback")
+	// the escape is written unconditionally in every clause that lists one of those runes
+	for _, sw := range qSw[1:] {
+		if m := runeCases(info, sw, nil); !(m['"'] && sw.Tag != nil) {
+			continue
+		}
+		for _, st := range sw.Body.List {
+			cc := st.(*ast.CaseClause)
+			lists := false
+			for _, e := range cc.List {
+				if tv, ok := info.Types[e]; ok && tv.Value != nil {
+					if v, ok := constant.Int64Val(tv.Value); ok && (dqLexer[rune(v)] || v == '\\') {
+						lists = true
+					}
+				}
+			}
+			if !lists {
+				continue
+			}
+			uncond := false
+			for _, b := range cc.Body {
+				es, ok := b.(*ast.ExprStmt)
+				if !ok {
+					continue
+				}
+				if call, ok := es.X.(*ast.CallExpr); ok {
+					for _, a := range call.Args {
+						if tv, ok := info.Types[a]; ok && tv.Value != nil {
+							if v, ok := constant.Int64Val(tv.Value); ok && v == '\\' {
+								uncond = true
+							}
+							if tv.Value.Kind() == constant.String && constant.StringVal(tv.Value) == "\\" {
+								uncond = true
+							}
+						}
+					}
+				}
+			}
+			r.Check(uncond, "R13c", "syntax.Quote#double-quote escape written unconditionally: "+exprString(cc.List[0]), cc.Pos(), "the clause writes the backslash before the rune on every path",
+				"a rune that is special inside double quotes is only escaped under a further condition: in the remaining cases it is written bare (a trailing backslash then escapes the closing quote)")
+		}
+	}
 }
 
 var c13Controls = []Control{
+	{Name: "runeerror-without-width", Rule: "R13g", WantKey: "with a width test", File: "syntax/quote.go",
+		Mutate: ctlReplaceAnywhere("r == utf8.RuneError && size == 1:", "r == utf8.RuneError:")},
 	{Name: "short-U-escape", Rule: "R13e", WantKey: "escape \\U width 6", File: "syntax/quote.go",
 		Mutate: ctlReplaceAnywhere(`"\\U%08x"`, `"\\U%06x"`)},
 	{Name: "brace-quoted-only-before-comma", Rule: "R13d", WantKey: "expansion trigger '{'", File: "syntax/quote.go",
